@@ -2,7 +2,14 @@ package check
 
 import (
 	"fmt"
+	"regexp"
+	"sort"
+	"strconv"
 	"strings"
+
+	"golang.org/x/tools/go/ssa"
+
+	"verif/frame"
 )
 
 // Ground relaxation for model finding (stage 2 only; never used to discharge anything):
@@ -444,5 +451,46 @@ func instantiateStructAxiom(a string) []string {
 		}
 		rec(0, body)
 	}
+	return out
+}
+
+var reConstRequires = regexp.MustCompile(`^\s*([A-Za-z_][A-Za-z0-9_]*)\s*==\s*("(?:[^"\\]|\\.)*")\s*$`)
+
+// constantRequires: a precondition `Var == "lit"` over a package variable of the function's
+// own package is a fact about global state, not about the call: it is discharged once, for
+// every caller in the program (also those without a contract), by showing that the variable
+// only ever holds that constant (frame.ConstantGlobal). One obligation per variable.
+func constantRequires(env *Env, g *Gen) []frame.Result {
+	seen := map[string]bool{}
+	var out []frame.Result
+	for _, fc := range env.CS.Funcs {
+		if !g.done[fc.Rel+":"+fc.Name] {
+			continue
+		}
+		for _, c := range fc.Cases {
+			for _, r := range c.Requires {
+				m := reConstRequires.FindStringSubmatch(r.Text)
+				if m == nil {
+					continue
+				}
+				pkg := env.Prog.ByRel[fc.Rel]
+				if pkg == nil {
+					continue
+				}
+				switch pkg.Members[m[1]].(type) {
+				case *ssa.Global, *ssa.NamedConst:
+				default:
+					continue // a parameter or result name, not a package-level variable
+				}
+				want, err := strconv.Unquote(m[2])
+				if err != nil || seen[fc.Rel+":"+m[1]+"="+want] {
+					continue
+				}
+				seen[fc.Rel+":"+m[1]+"="+want] = true
+				out = append(out, frame.ConstantGlobal(env.Prog, fc.Rel, m[1], want))
+			}
+		}
+	}
+	sort.Slice(out, func(i, j int) bool { return out[i].Name < out[j].Name })
 	return out
 }
